@@ -622,6 +622,10 @@ func (hp *HTTPProxy) directLocalhost(fn ProxyFunc) ProxyFunc {
 
 func (hp *HTTPProxy) isLocalhost(host string) bool {
 	host = strings.ToLower(host)
+	// The zone of an IPv6 literal and the trailing dot of an absolute domain name
+	// do not change the target.
+	host, _, _ = strings.Cut(host, "%")
+	host = strings.TrimSuffix(host, ".")
 
 	if slices.Contains(hp.localhost, host) {
 		return true
